@@ -351,6 +351,26 @@ def check_case(case):
             bad("breaks", f"breaks {got_b[:8]}, expected {sorted(exp_b)[:8]} (min_probes={mp})")
     if not cnarr.data.equals(before):
         bad("input-modified", "bin table changed")
+    # ---- command-line tier (a quarter of the cases): `cnvkit.py genemetrics` / `breaks` on the written tables = the
+    # library calls on the same files, the sample sex given on the command line
+    if gen.pick(case, "cli", 4) == 0 and not out:
+        import shutil
+        import tempfile
+
+        from vk import cli
+
+        d = tempfile.mkdtemp(prefix="vk16.")
+        try:
+            sa = segarr if case["use_segments"] else None
+            diff = cli.genemetrics_diff(cnarr, sa, d, thr, minp, case["skip_low"], case["male_ref"], case["female"])
+            if diff:
+                bad("cli:genemetrics", diff)
+            if sa is not None:
+                diff = cli.breaks_diff(cnarr, sa, d, case["min_probes"])
+                if diff:
+                    bad("cli:breaks", diff)
+        finally:
+            shutil.rmtree(d, ignore_errors=True)
     return out
 
 
